@@ -135,6 +135,18 @@ def check_one(kind, lit, out):
         elif kind == "bytes":
             expected = bytes(lit)
             ctor = lambda: pt.Bytes(lit)
+        elif kind == "bytearray_reused":
+            # the literal is what the buffer held when Bytes(...) was built; the caller reuses / wipes / resizes
+            # its buffer afterwards
+            expected = bytes(lit)
+
+            def ctor():
+                buf = bytearray(lit)
+                e = pt.Bytes(buf)
+                for i in range(len(buf)):
+                    buf[i] = (buf[i] + 1) & 0xFF
+                buf.extend(b"\xee")
+                return e
         elif kind in ("base16", "base32", "base64"):
             expected = {"base16": py_b16, "base32": py_b32, "base64": py_b64}[kind](lit)
             wellformed = expected is not None
@@ -237,6 +249,11 @@ def literals(tier):
                 items.append(("bytes", bytes([a, b])))
     items.append(("bytes", b""))
     items.append(("bytes", bytearray(b"\x00\xff")))
+    for n in (0, 1, 0x22, 0x5c, 0xff):
+        items.append(("bytearray_reused", bytes([n])))
+        items.append(("bytearray_reused", bytes([n, 0x0a, n])))
+    items.append(("bytearray_reused", b""))
+    items.append(("bytearray_reused", b"secret"))
     for s in strings(B16_ALPHA, 4):
         items.append(("base16", s))
     for s in strings(B32_ALPHA, 4 if tier == "quick" else 5):
